@@ -737,7 +737,13 @@ func (c *cutter) doHuffman(isFirstBlock bool, lLengths []uint32, dLengths []uint
 			decodedLen += length
 
 		} else {
-			// It's the end-of-block.
+			// It's the end-of-block. If no symbol came before it, then nothing
+			// has checked that the end-of-block code itself fits in the
+			// maxEncodedLen budget.
+			encodedBits := 8*uint64(c.bits.index) - uint64(c.bits.nBits)
+			if encodedBits > 8*uint64(c.maxEncodedLen) {
+				break
+			}
 			return nil
 		}
 
